@@ -198,3 +198,286 @@ def c06(pid, tier, seed, selftest=False):
     n, ex = st.drift(runs)
     rep.extra["model_drift_runs"] = n
     return rep.finish()
+
+
+# --------------------------------------------------------------------------
+# C07
+# --------------------------------------------------------------------------
+
+import concurrent.futures as cf
+import re
+import cli
+from vlib import validate_trace, write_jsonl, workdir, NCPU
+
+
+def fresh_cfg(maxops, nchunks, reuse, invs):
+    s = "SPECIFICATION Spec\nCONSTANTS\n  MaxOps = %d\n  NChunks = %d\n  Reuse = %s\n" % (maxops, nchunks, "TRUE" if reuse else "FALSE")
+    for i in invs:
+        s += "INVARIANT %s\n" % i
+    s += "CHECK_DEADLOCK FALSE\n"
+    return s
+
+
+def exec_history(pid, tpl, seed, hid, ops, keys, plen):
+    """Run one history of operations with identical inputs through the library / the CLI and
+    recover everything each operation drew.  Returns the event list."""
+    evs = [{"ev": "begin", "id": hid, "ops": ops}]
+    pw = b"same password"
+    with cli.Sandbox(pid, "c07") as sb:
+        sb.write("keyring.txt", cli.keyring_text([("alice", keys["alice"], True), ("bob", keys["bob"], True)]))
+        sb.write("plain.bin", bytes((i * 7 + 1) % 251 for i in range(plen)))
+        locked = keys["alice"]["locked"]
+        locked_pw = keys["alice"]["password"]
+        for k, op in enumerate(ops):
+            tag = "%s.%d" % (hid, k)
+
+            def draw(kind, v, ok=True):
+                evs.append({"ev": "draw", "id": tag, "op": op, "kind": kind, "v": v if v else "unrecovered-%s" % tag, "ok": bool(ok and v)})
+
+            def seal(key, nonce, index):
+                evs.append({"ev": "seal", "id": tag, "op": op, "key": key, "nonce": nonce, "index": index})
+            if op == "kenc" and k % 2 == 0:
+                o = cli.driver_ops(pid, tpl, [{"op": "kenc_draws", "kseed": 1, "rseed": 1, "plen": plen, "id": tag}], seed, tag)[0]
+            elif op == "kenc":
+                r = cli.kestrel(["encrypt", sb.path("plain.bin"), "-t", "bob", "-f", "alice", "-o", sb.path("c%d.ktl" % k),
+                                 "-k", sb.path("keyring.txt"), "--env-pass"], env={"KESTREL_PASSWORD": keys["alice"]["password"].decode()})
+                if r.rc != 0:
+                    o = {"ok": False}
+                else:
+                    o = cli.driver_ops(pid, tpl, [{"op": "open", "path": sb.path("c%d.ktl" % k), "r_priv_hex": keys["bob"]["sk_hex"],
+                                                   "id": tag}], seed, tag)[0]
+            if op == "kenc":
+                draw("ephemeral", o.get("e_pub"), o.get("ok"))
+                draw("payload", o.get("payload"), o.get("ok"))
+                draw("filekey", o.get("file_key"), o.get("ok"))
+                if o.get("ok"):
+                    seal("k1:" + o["k1"], 0, 0)
+                    seal("k2:" + o["k2"], 0, 0)
+                    for j, n in enumerate(o["nonces"]):
+                        seal("fk:" + o["file_key"], n, j)
+            elif op == "penc":
+                r = cli.kestrel(["password", "encrypt", sb.path("plain.bin"), "-o", sb.path("p%d.ktl" % k), "--env-pass"],
+                                env={"KESTREL_PASSWORD": pw.decode()})
+                o = {"ok": False}
+                if r.rc == 0:
+                    o = cli.driver_ops(pid, tpl, [{"op": "open_pass", "path": sb.path("p%d.ktl" % k), "password_hex": pw.hex(),
+                                                   "id": tag}], seed, tag)[0]
+                draw("salt", o.get("salt"), o.get("ok"))
+                if o.get("ok"):
+                    for j, n in enumerate(o["nonces"]):
+                        seal("fk:" + o["file_key"], n, j)
+            elif op == "generate":
+                r = cli.kestrel(["key", "generate", "--env-pass"], env={"KESTREL_PASSWORD": pw.decode()}, stdin=b"samename\n")
+                m = re.search(rb"PrivateKey = (\S+)", r.out)
+                o = {"ok": False}
+                if r.rc == 0 and m:
+                    o = cli.driver_ops(pid, tpl, [{"op": "unlock", "locked": m.group(1).decode(), "password_hex": pw.hex(), "id": tag}],
+                                       seed, tag)[0]
+                draw("privkey", o.get("sk_hex"), o.get("ok"))
+                draw("salt", o.get("salt_hex"), o.get("ok"))
+                if o.get("ok"):
+                    seal("scrypt:" + o["salt_hex"], 0, 0)
+                    locked, locked_pw = m.group(1).decode(), pw
+            elif op == "changepass":
+                r = cli.kestrel(["key", "change-pass", locked, "--env-pass"],
+                                env={"KESTREL_PASSWORD": locked_pw.decode(), "KESTREL_NEW_PASSWORD": pw.decode()})
+                m = re.search(rb"PrivateKey = (\S+)", r.out)
+                o = {"ok": False}
+                if r.rc == 0 and m:
+                    o = cli.driver_ops(pid, tpl, [{"op": "unlock", "locked": m.group(1).decode(), "password_hex": pw.hex(), "id": tag}],
+                                       seed, tag)[0]
+                draw("salt", o.get("salt_hex"), o.get("ok"))
+                if o.get("ok"):
+                    seal("scrypt:" + o["salt_hex"], 0, 0)
+                    locked, locked_pw = m.group(1).decode(), pw
+    return evs
+
+
+def c07(pid, tier, seed, selftest=False):
+    rep = Report(pid, tier, seed)
+    rep.rule = ("every history of <= n operations over {key encryption (library with randomness left to it / CLI, alternating), "
+                "password encryption (CLI), key generation (CLI), password change (CLI)} with identical inputs, enumerated by TLC "
+                "on Fresh.tla, is executed; each value the real code drew (ephemeral key, payload key, file key, salt, generated "
+                "private key) is recovered from its output by specification-directed opening, and every AEAD seal (handshake "
+                "keys at nonce 0, each record's key and the nonce it opens at) is logged; Trace_Fresh checks no value drawn "
+                "twice, no (key, nonce) reused, chunk i sealed at nonce i; EncLoop's NonceOnce/NonceIsIndex are model-checked "
+                "for every schedule; non-trivial = history with >= 2 operations")
+    rep.assumptions = ["equality of 32-byte values is the only probabilistic judgement (collision probability 2^-256 per pair)",
+                       "recovery uses the recipient's private key / the password, i.e. the specification as decryptor"]
+    build_harness()
+    tpl, tres = st.get_templates(pid)
+    rep.add_model("terms", tres, "byte-layout templates")
+    thorough = tier == "thorough"
+    cs_.check_model(rep, pid, "enc-mc", "MC_EncLoop", st.enc_constants(cs=2, maxlen=7 if thorough else 5, hdr="HdrSmall", faults=1),
+                    st.ENC_INVARIANTS, cs_.ENC_ACTIONS)
+    n = 4 if thorough else 3
+    res = run_tlc(pid, "fresh-mc", "Fresh", fresh_cfg(n, 2, False, ["AllFresh", "NonceOnce", "Emit"]), workers=1, timeout=300)
+    rep.add_model("fresh-mc", res, "histories of %d operations: AllFresh, NonceOnce" % n)
+    if res.violated:
+        raise ToolError("Fresh violates %s (model bug)" % res.violated)
+    if thorough or selftest:
+        for inv in ("AllFresh", "NonceOnce"):
+            r = run_tlc(pid, "neg-reuse-" + inv, "Fresh", fresh_cfg(2, 2, True, [inv]), workers=1, timeout=120)
+            rep.add_model("neg-reuse-" + inv, r, "deviation Reuse must break " + inv)
+            if r.violated != inv:
+                raise ToolError("negative variant Reuse: expected %s, got %s" % (inv, r.violated))
+        for v in ("CounterStuck", "CounterSkips"):
+            cs_.negative_variant(rep, pid, "neg-" + v, "MC_EncLoop", st.enc_constants(cs=2, maxlen=5, hdr="HdrSmall", variant=v),
+                                 st.ENC_INVARIANTS, ["NonceOnce", "NonceIsIndex", "LegalOutput"])
+    hists = [r["ops"] for r in res.replays]
+    # shorter histories are prefixes of these; add a few long repeated-identical ones
+    hists += [["kenc"] * 6, ["penc"] * 6, ["generate"] * 5, ["generate"] + ["changepass"] * 5]
+    keys = cli.make_keys(pid, tpl, seed, [("alice", b"alice-pw"), ("bob", b"bob-pw")])
+    all_evs = []
+
+    def one(i_h):
+        i, h = i_h
+        return exec_history(pid, tpl, seed, "h%d" % i, h, keys, 70000 if i % 5 == 0 else 10)
+    with cf.ThreadPoolExecutor(max_workers=NCPU) as ex:
+        for evs in ex.map(one, list(enumerate(hists))):
+            all_evs.append(evs)
+    flat = [e for evs in all_evs for e in evs]
+    wd = workdir(pid, "run-fresh", clean=True)
+    tp = wd + "/trace.ndjson"
+    write_jsonl(tp, flat)
+    v = validate_trace(pid, "fresh", "Trace_Fresh", tp, len(flat))
+    rep.add_trace_run("fresh", v, len(hists), len(flat))
+    for (ln, pred) in v["viols"]:
+        if pred.startswith("TOOL_"):
+            raise ToolError("trace tooling mismatch " + pred)
+        e = flat[ln - 1]
+        hist = next((evs for evs in all_evs if evs[0]["id"] == e["id"].split(".")[0]), None)
+        rep.violation("%s id=%s op=%s" % (pred, e["id"], e.get("op")), {"engine": "fresh", "history": hist[0]["ops"] if hist else None,
+                                                                          "events": hist})
+    for i, h in enumerate(hists):
+        rep.case(json.dumps(h), len(h) >= 2)
+    rep.sample({"history": hists[0], "events": all_evs[0][:8]})
+    rep.extra["draws_recovered"] = sum(1 for e in flat if e["ev"] == "draw")
+    rep.extra["seals_observed"] = sum(1 for e in flat if e["ev"] == "seal")
+    return rep.finish()
+
+
+# --------------------------------------------------------------------------
+# C08
+# --------------------------------------------------------------------------
+
+import random
+import struct
+
+
+def parse_layout(data, h):
+    """(nrec, framing_ok): walk the length fields of header ++ records."""
+    off = h
+    n = 0
+    while off < len(data):
+        if off + 32 > len(data):
+            return n, False
+        ln = struct.unpack(">I", data[off + 12:off + 16])[0]
+        off += 32 + ln
+        n += 1
+    return n, off == len(data)
+
+
+def cli_clear(pid, tpl, seed, idx, plen, mode):
+    """kestrel encrypt / password encrypt with long random names; search the output."""
+    rnd = random.Random(seed * 1000 + idx)
+    names = ["".join(rnd.choice("abcdefghijklmnopqrstuvwxyzABCDEFGHIJKLMNOPQRSTUVWXYZ0123456789") for _ in range(rnd.choice([12, 40, 127])))
+             for _ in range(2)]
+    outs = []
+    for ident in (0, 1):
+        keys = cli.make_keys(pid, tpl, seed, [("c8s%d" % ident, b"pw-s"), ("c8r%d" % ident, b"pw-r")])
+        ks, kr = keys["c8s%d" % ident], keys["c8r%d" % ident]
+        with cli.Sandbox(pid, "c08") as sb:
+            sb.write("kr.txt", cli.keyring_text([(names[0] + str(ident), ks, True), (names[1] + str(ident), kr, False)]))
+            sb.write("plain.bin", bytes((i * 13 + 5) % 256 for i in range(plen)))
+            if mode == "key":
+                r = cli.kestrel(["encrypt", sb.path("plain.bin"), "-t", names[1] + str(ident), "-f", names[0] + str(ident), "-o", sb.path("o.ktl"),
+                                 "-k", sb.path("kr.txt"), "--env-pass"], env={"KESTREL_PASSWORD": "pw-s"})
+            else:
+                r = cli.kestrel(["password", "encrypt", sb.path("plain.bin"), "-o", sb.path("o.ktl"), "--env-pass"],
+                                env={"KESTREL_PASSWORD": names[ident]})
+            data = sb.read("o.ktl") or b""
+        if r.rc != 0:
+            # a valid invocation that fails is C12's statement; here it only means nothing can be observed
+            raise ToolError("C08 CLI setup: kestrel %s encrypt failed: %s" % (mode, r.err_text[-300:]))
+        forms = []
+        for k in (ks, kr):
+            pk = bytes.fromhex(k["pk_hex"])
+            forms += [pk, base64.b64encode(pk), k["pub_enc"].encode(), base64.b64decode(k["pub_enc"]), k["pk_hex"].encode()]
+        for nm in (names[0] + str(ident), names[1] + str(ident)):
+            forms += [nm.encode(), base64.b64encode(nm.encode()), nm[:12].encode()]
+        outs.append((r.rc, data, forms))
+    h = 132 if mode == "key" else 36
+    (rc0, d0, f0), (rc1, d1, f1) = outs
+    n0, fr0 = parse_layout(d0, h)
+    found = any(f in d for d in (d0, d1) for f in f0 + f1 if mode == "key" or f in [x for x in f0 + f1 if len(x) >= 12 and not x.startswith(b"c8")])
+    if mode == "pass":
+        # in password mode only the names (used as passwords here) are identities
+        found = any(nm.encode() in d or base64.b64encode(nm.encode()) in d for d in (d0, d1) for nm in names)
+    clear_equal = len(d0) == len(d1) and d0[:4] == d1[:4]
+    if clear_equal:
+        off = h
+        while off + 16 <= len(d0):
+            if d0[off:off + 16] != d1[off:off + 16]:
+                clear_equal = False
+                break
+            off += 32 + struct.unpack(">I", d0[off + 12:off + 16])[0]
+    return {"ev": "clear", "id": "cli.%s.%d" % (mode, idx), "api": mode, "plen": plen, "H": h, "ok": rc0 == 0 and rc1 == 0,
+            "flen": len(d0), "flen_b": len(d1), "nrec": n0, "framing_ok": fr0, "clear_equal": clear_equal, "identity_found": found}
+
+
+def c08(pid, tier, seed, selftest=False):
+    rep = Report(pid, tier, seed)
+    rep.rule = ("NoIdentityInClear / ClearIndependentOfIdentity checked by TLC on the 4608 NoiseAdv scenarios (anything sent outside "
+                "an AEAD mentions no static key and is the same for another sender/recipient pair) and the size formula on every "
+                "EncLoop schedule; real output: pairs of encryptions (library with identical injected ephemeral / payload key / "
+                "salt, and CLI with keyrings whose names are long random strings) that differ only in identities are compared "
+                "position by position on the cleartext fields, their length against 132|36 + 32*records + plaintext, and searched "
+                "for each party's public key (raw, hex, base64, keyring encoding) and each keyring name (raw, base64); "
+                "non-trivial = more than one record or a non-default read partition")
+    rep.assumptions = ["identity search strings are >= 12 random bytes, so an accidental occurrence in ciphertext has probability < 2^-60 per file",
+                       "AEAD output is treated as opaque (C19)"]
+    build_harness()
+    tpl, tres = st.get_templates(pid)
+    rep.add_model("terms", tres, "byte-layout templates")
+    thorough = tier == "thorough"
+    res = run_tlc(pid, "clear-mc", "NoiseAdv", noise_cfg(["NoIdentityInClear", "ClearIndependentOfIdentity"]), workers=4, timeout=600)
+    rep.add_model("clear-mc", res, "NoIdentityInClear, ClearIndependentOfIdentity on NoiseAdv")
+    if res.violated:
+        raise ToolError("NoiseAdv violates %s (model bug)" % res.violated)
+    if thorough or selftest:
+        r = run_tlc(pid, "neg-clear", "NoiseAdv", noise_cfg(["NoIdentityInClear", "ClearIndependentOfIdentity"], "DevStaticKeyInClear"),
+                    workers=2, timeout=300)
+        rep.add_model("neg-clear", r, "deviation StaticKeyInClear must break the invariants")
+        if r.violated not in ("NoIdentityInClear", "ClearIndependentOfIdentity"):
+            raise ToolError("negative variant StaticKeyInClear: got %s" % r.violated)
+    cs_.check_model(rep, pid, "enc-mc", "MC_EncLoop", st.enc_constants(cs=2, maxlen=7 if thorough else 5, hdr="HdrSmall"),
+                    st.ENC_INVARIANTS, cs_.ENC_ACTIONS)
+    rnd = random.Random(seed)
+    one = []
+    n = 400 if thorough else 40
+    for i in range(n):
+        plen = [0, 1, 10, 65536, 65537, 131072, 200000][i % 7] if i < 21 else rnd.randint(0, 300000)
+        reads = [] if i % 3 == 0 else [rnd.randint(1, 65536) for _ in range(rnd.randint(1, 5))]
+        one.append({"op": "clear", "id": "cl%d" % i, "api": "key" if i % 4 else "pass", "plen": plen, "reads": reads, "k": i, "pseed": i})
+    for s in one:
+        rep.case(json.dumps(s, sort_keys=True), s["plen"] > 65536 or bool(s["reads"]))
+    rep.sample(one[1])
+    run_oneshot(rep, pid, "clear", "noise", one, tpl, seed, "Trace_Noise", nproc=16, only_prefixes=["C08_"])
+    # CLI level
+    jobs = [(i, [0, 5, 70000, 131072][i % 4], "key" if i % 3 else "pass") for i in range(60 if thorough else 10)]
+    with cf.ThreadPoolExecutor(max_workers=NCPU) as ex:
+        evs = list(ex.map(lambda j: cli_clear(pid, tpl, seed, *j), jobs))
+    wd = workdir(pid, "run-cliclear", clean=True)
+    tp = wd + "/trace.ndjson"
+    write_jsonl(tp, evs)
+    v = validate_trace(pid, "cliclear", "Trace_Noise", tp, len(evs))
+    rep.add_trace_run("cliclear", v, len(evs), len(evs))
+    for (ln, pred) in v["viols"]:
+        if pred.startswith("TOOL_"):
+            raise ToolError("trace tooling mismatch " + pred)
+        rep.violation("%s id=%s" % (pred, evs[ln - 1]["id"]), {"engine": "cliclear", "observed": evs[ln - 1]})
+    for e in evs:
+        rep.case(e["id"], True)
+    rep.sample(evs[0])
+    return rep.finish()
